@@ -134,6 +134,8 @@ status_t DataNode :: InsertIndexEntryAt(uint32 insertIndex, StorageReflectSessio
    DataNodeRef childNode;
    MRETURN_ON_ERROR(_children->Get(&key, childNode));
 
+   if (insertIndex > (_orderedIndex ? _orderedIndex->GetNumItems() : 0)) return B_BAD_ARGUMENT;  // Queue::InsertItemAt() would append, but subscribers would be told (insertIndex)
+
    if (_orderedIndex == NULL) _orderedIndex = new Queue<DataNodeRef>;
    MRETURN_ON_ERROR(_orderedIndex->InsertItemAt(insertIndex, childNode));
 
